@@ -1352,3 +1352,5 @@ func c16cGen(r *rand.Rand, n int, tier string) []string {
 	}
 	return out
 }
+
+func init() { registerWorker("c16cworker", c16cWorkerMain) }
